@@ -116,6 +116,17 @@ theorem C17_continuation_facts :
     Gen.clientStreamContinuation = ("intch.streamer", "{ return intch.ch.NewStream(ctx, desc, methodName, opts...) }") := by
   decide
 
+/-- regenerated from intercept.go: `Invoke` / `NewStream` of the wrapper return the interceptor call itself, so the
+    interceptor's results (the error value included) reach the caller untouched — which is what the model's
+    `invoke (.wrapped inner (some u) _) c = u … ` (no post-processing of the `Out`) means -/
+theorem C17_results_direct_facts : Gen.clientUnaryResultDirect = true ∧ Gen.clientStreamResultDirect = true := by decide
+
+/-- whatever an interceptor returns without calling onward is the result of the call, through any wrapper -/
+theorem C17_short_circuit_result_unchanged (inner : Chan) (u s : Option Interceptor) (c : Call) (out : Out) :
+    invoke (.wrapped inner (some fun _ _ _ => out) s) c = out ∧
+    newStream (.wrapped inner u (some fun _ _ _ => out)) c = out := by
+  constructor <;> simp [invoke, newStream]
+
 /-- an interceptor that forwards without options reaches the next layer without options, whatever the caller passed -/
 theorem C17_dropped_options_stay_dropped (inner : Chan) (s : Option Interceptor) (c : Call) (layer : Nat) :
     invoke (.wrapped inner (some (logDrop false layer)) s) c =
